@@ -149,13 +149,22 @@ class MessageSigner(object):
         is_compressed, recid, r, s = self._decode_signature(signature)
 
         # Calculate the specific public key used to sign this message.
-        y_parity = recid & 1
-        q = self._generator.possible_public_pairs_for_signature(
-            msg_hash, (r, s), y_parity=y_parity
-        )[0]
-        if recid > 1:
-            order = self._generator.order()
-            q = self._generator.Point(q[0] + order, q[1])
+        generator = self._generator
+        order = generator.order()
+        if not (0 < r < order and 0 < s < order):
+            raise EncodingError("r or s out of range")
+        # recovery ids 2 and 3 mean the x coordinate of the nonce point is r + order
+        x = r + order if recid > 1 else r
+        if x >= generator.p():
+            raise EncodingError("no nonce point for this recovery id")
+        try:
+            nonce_point = generator.points_for_x(x)[recid & 1]
+        except ValueError:
+            raise EncodingError("no nonce point with x coordinate r")
+        inv_r = generator.inverse(r)
+        q = (s * inv_r) * nonce_point + (-(inv_r * msg_hash)) * generator
+        if q == generator.infinity():
+            raise EncodingError("recovered key is the point at infinity")
         return q, is_compressed
 
     def pair_matches_key(self, pair: Any, key: Any, is_compressed: bool) -> bool:
